@@ -88,7 +88,7 @@ func valText(v *AVal) string {
 			return strconv.Itoa(int(f))
 		}
 		return fmt.Sprint(v.V)
-	case "raw":
+	case "raw", "type", "kw":
 		return fmt.Sprint(v.V)
 	}
 	return "true"
